@@ -57,16 +57,35 @@ def base_datatypes(index, v):
                 raise AnalysisError('%s:%d: cannot resolve class %s' % (mod.relpath, call.lineno, val.id))
             res[k.value] = ci
 
+    def apply_item(st, owner):
+        """owner['K'] = Cls   (the canonical form of owner.update({'K': Cls}))"""
+        if not (isinstance(st, ast.Assign) and len(st.targets) == 1 and isinstance(st.targets[0], ast.Subscript) and
+                isinstance(st.targets[0].value, ast.Name) and st.targets[0].value.id == owner):
+            return False
+        k, val = st.targets[0].slice, st.value
+        if isinstance(k, ast.Attribute) and k.attr == '__name__' and ast.unparse(k.value) == ast.unparse(val):
+            return False      # the loader's own loop over the tuple of names: d[cls.__name__] = cls
+        if not (isinstance(k, ast.Constant) and isinstance(val, ast.Name)):
+            raise AnalysisError('%s:%d: unrecognised BASE_DATATYPES entry' % (mod.relpath, st.lineno))
+        ci = index.resolve_class_name(mod, val.id)
+        if ci is None:
+            raise AnalysisError('%s:%d: cannot resolve class %s' % (mod.relpath, st.lineno, val.id))
+        res[k.value] = ci
+        return True
+
     for node in ast.walk(loader.node):
         if isinstance(node, ast.Call) and isinstance(node.func, ast.Attribute) and node.func.attr == 'update' \
                 and isinstance(node.func.value, ast.Name) and node.func.value.id == local_dict:
             apply_update(node)
+        if local_dict is not None and isinstance(node, ast.Assign):
+            apply_item(node, local_dict)
     for st in mod.tree.body:
         if isinstance(st, ast.Expr) and isinstance(st.value, ast.Call):
             c = st.value
             if isinstance(c.func, ast.Attribute) and c.func.attr == 'update' and \
                     isinstance(c.func.value, ast.Name) and c.func.value.id == 'BASE_DATATYPES':
                 apply_update(c)
+        apply_item(st, 'BASE_DATATYPES')
     bd = mod.assigns.get('BASE_DATATYPES')
     if bd is None or ast.unparse(bd) != '_load_base_datatypes()':
         raise AnalysisError('%s: BASE_DATATYPES is not bound to _load_base_datatypes()' % mod.relpath)
